@@ -229,7 +229,8 @@ def c2s_stream(ctx, mode, n, length=None):
     traces = framework.pool_map(random_stream_trace, jobs)
     ctx._phase("record:" + mode, t0)
     t0 = time.time()
-    ctx.validate("net", "Trace_IOStreamContract", "Trace_IOStreamContract.cfg", traces, sig_fn=trace_sig)
+    ctx.validate("net", "Trace_IOStreamContract", "Trace_IOStreamContract.cfg", traces, sig_fn=trace_sig,
+                 timeout=ctx.pick(900, 3000))
     ctx._phase("validate:" + mode, t0)
     return traces
 
@@ -304,6 +305,7 @@ def c2s_connector(ctx, n, create_modes=False, label="c2s"):
     traces = framework.pool_map(random_connector_trace, jobs)
     ctx._phase("record:connector", t0)
     t0 = time.time()
-    ctx.validate("net", "Trace_Connector", "Trace_Connector.cfg", traces, sig_fn=conn_trace_sig, label=label)
+    ctx.validate("net", "Trace_Connector", "Trace_Connector.cfg", traces, sig_fn=conn_trace_sig, label=label,
+                 timeout=ctx.pick(900, 3000))
     ctx._phase("validate:connector", t0)
     return traces
